@@ -1,6 +1,7 @@
 package main
 
 import (
+	"context"
 	"encoding/json"
 
 	"google.golang.org/protobuf/proto"
@@ -79,9 +80,15 @@ type elOp struct {
 	Se   relTotal `json:"se"`
 	Sl   relTotal `json:"sl"`
 }
+type elOpt struct {
+	Kind string  `json:"kind"` // init | clock
+	Init elState `json:"init"`
+	Via  string  `json:"via"` // init: WithInitialEnterLeaveEvent ("model") or WithEnterLeaveEventOption(resource.WithInitialValue) ("resource")
+}
 type elWalk struct {
 	N   int `json:"n"`
 	Cfg struct {
+		Opts    []elOpt `json:"opts"`
 		HasInit bool    `json:"hasInit"`
 		Init    elState `json:"init"`
 	} `json:"cfg"`
@@ -99,6 +106,8 @@ type elObs struct {
 	Sl      optInt  `json:"sl"`
 	Pre     elState `json:"pre"`
 	Post    elState `json:"post"`
+	Opts    []elOpt `json:"opts"` // New: the option sequence
+	Seed    elState `json:"seed"` // New: the totals of the PullEnterLeaveEvents seed
 	Err     string  `json:"err"`
 	Panic   string  `json:"panic"`
 }
@@ -109,22 +118,40 @@ func runEnterLeave(raw json.RawMessage, out *hx.Out) {
 	w := decode[elWalk](raw)
 	var m *enterleavesensorpb.Model
 	o := elObs{Model: "enterleave", Walk: w.N, Op: "New", HasInit: w.Cfg.HasInit, Dir: "DIRECTION_UNSPECIFIED",
-		Pre: w.Cfg.Init, Err: "OK"}
+		Pre: w.Cfg.Init, Err: "OK", Opts: w.Cfg.Opts}
 	o.Panic = hx.Catch(func() {
 		var opts []resource.Option
-		if w.Cfg.HasInit {
-			opts = append(opts, enterleavesensorpb.WithInitialEnterLeaveEvent(&traits.EnterLeaveEvent{
-				EnterTotal: concOptInt(w.Cfg.Init.Enter), LeaveTotal: concOptInt(w.Cfg.Init.Leave)}))
+		for _, co := range w.Cfg.Opts {
+			switch co.Kind {
+			case "init":
+				ev := &traits.EnterLeaveEvent{EnterTotal: concOptInt(co.Init.Enter), LeaveTotal: concOptInt(co.Init.Leave)}
+				if co.Via == "resource" {
+					opts = append(opts, enterleavesensorpb.WithEnterLeaveEventOption(resource.WithInitialValue(ev)))
+				} else {
+					opts = append(opts, enterleavesensorpb.WithInitialEnterLeaveEvent(ev))
+				}
+			case "clock":
+				opts = append(opts, resource.WithClock(scriptedClock()))
+			default:
+				hx.Fatal("enterleave: unknown option kind %q", co.Kind)
+			}
 		}
 		m = enterleavesensorpb.NewModel(opts...)
 		o.Post = elRead(m)
+		seed, _ := pullSeed(func(ctx context.Context) <-chan enterleavesensorpb.EnterLeaveEventChange {
+			return m.PullEnterLeaveEvents(ctx)
+		}, 1)
+		o.Seed = elState{Enter: optInt{Has: true, V: -7777}}
+		if len(seed) == 1 {
+			o.Seed = elState{Enter: optIntOf(seed[0].Value.EnterTotal), Leave: optIntOf(seed[0].Value.LeaveTotal)}
+		}
 	})
 	out.Write(o)
 	if m == nil {
 		return
 	}
 	for i, op := range w.Ops {
-		o := elObs{Model: "enterleave", Walk: w.N, Step: i + 1, Op: op.Op, HasInit: w.Cfg.HasInit, Dir: op.Dir, Err: "OK"}
+		o := elObs{Model: "enterleave", Walk: w.N, Step: i + 1, Op: op.Op, HasInit: w.Cfg.HasInit, Dir: op.Dir, Err: "OK", Opts: []elOpt{}}
 		o.Pre = elRead(m)
 		event := &traits.EnterLeaveEvent{Occupant: &traits.EnterLeaveEvent_Occupant{Name: "someone"}}
 		if op.Op == "Event" {
